@@ -89,6 +89,16 @@ def ind_scenario(rng, fid, fam, cfg, n, style, twins=("batch",), tf=None, extra=
         prog.append(("poke", -1, (o, max(h, c2, o), min(l, c2, o), c2, v + rng.choice([0, 1, 3]))))
         prog.append(("calculate_index", "", -1, "fresh"))
         twins = ()
+    if not tf and not cfg.ctype and not reindex and rng.random() < 0.1 and n >= 12 \
+            and not any(x[0] == "poke" for x in prog):
+        # an older candle is corrected in place (a late trade report), then every reading from there on is
+        # recomputed with calculate_index(start, end): all of them, whatever values they replace
+        k_ = rng.randint(n // 2, n - 3)
+        o, h, l, c, v = st[k_][1:]
+        c2 = c + rng.choice([2, 3, -2])
+        prog.append(("poke", k_, (o, max(h, c2, o), min(l, c2, o), c2, v)))
+        prog.append(("calculate_range", "", k_))
+        twins = ()
     if reindex:
         # refresh the newest reading the way Hexital.calculate_index() does by default (index -1)
         # (index 0 and its negative twin included: the first candle has no predecessor)
@@ -135,12 +145,37 @@ def fam_kinds(rng, pid, kinds, count, n=(12, 20), styles=STYLES, twins=("batch",
         style = rng.choice(styles)
         if pid in ("C06", "C10") and kind in ("STOCH", "RSI", "AROON", "ADX", "TSI", "ROC") and rng.random() < 0.25:
             style = "micro"
+        zero_band = kind in ("Supertrend", "KC") and not tf and rng.random() < 0.15
         sc = ind_scenario(rng, f"{pid}/{kind}/{t}", "kinds", cfg, nn, style, twins, tf=tf,
                           # refreshing a reading that is already there (calculate_index, also on the first
                           # candle and by negative index) must give the definition's value again
                           reindex=(rng.random() < {"C10": 0.35, "C04": 0.2, "C05": 0.2, "C06": 0.2}.get(pid, 0.0)),
                           extra=rng.randint(1, 5) if "longer" in twins else 0,
                           regular=tf_regular(rng, tf) if tf and rng.random() < 0.6 else None)
+        if pid == "C01" and tf and "batch" in twins and rng.random() < 0.12:
+            # timestamps with a fraction of a second (one candle a spacing, never two within a second).
+            # The specification does not say what a sub-second stamp means for bucketing; what C01 says does not
+            # depend on it: any append schedule ends in the state of one batch over the same candles.  Judged
+            # by the batch twin alone.
+            from streams import tf_seconds as _tfs
+
+            sp = max(2, _tfs(tf) // rng.choice([2, 3, 4]))
+            sc = ind_scenario(rng, f"{pid}/{kind}/{t}/frac", "kinds", cfg, nn, "walk", ("batch",), tf=tf, regular=sp)
+            sc["stream"] = [(ts + rng.choice([0, 0.25, 0.5, 0.75]),) + tuple(rest) for (ts, *rest) in sc["stream"]]
+            sc["clause_props"] = {"batch": ["C01"], "exc": ["C01"], "stage": [], "def": [], "value": [], "gap": [],
+                                  "struct": [], "round": [], "repaint": [], "nonfinite": []}
+        if zero_band:
+            # zero is a value, for a band too: constant candles whose mid price is exactly multiplier x range,
+            # so that the lower band (mid - multiplier * ATR) is exactly 0.0 from the first reading on
+            m = cfg.mult if cfg.mult is not None else (3.0 if kind == "Supertrend" else 2.0)
+            k_ = rng.choice([1, 2, 3])
+            lo, hi = k_ * (2 * m - 1), k_ * (2 * m + 1)
+            if lo > 0 and float(lo).is_integer() and float(hi).is_integer():
+                lo, hi = int(lo), int(hi)
+                mid = (lo + hi) // 2
+                sc["stream"] = [(ts, mid, hi, lo, mid, v) for (ts, _o, _h, _l, _c, v) in sc["stream"]]
+                if kind == "KC":          # KC's middle is an EMA of the close: close = mid keeps it on the mid price
+                    pass
         if (pid in ("C04", "C05", "C10", "C14") and "longer" not in twins and rng.random() < 0.12
                 and not any(x[0] in ("poke", "calculate_index") for x in sc["prog"])
                 and len([x for x in sc["prog"] if x[0] == "append"]) >= 2):
@@ -1206,9 +1241,15 @@ def fam_work(rng, pid, count):
             sc = {"id": f"{pid}/hex/{t}", "obj": "hex", "inds": cfgs, "hex": {}, "member_forms": ["obj"] * len(cfgs)}
         else:
             cfg = rand_cfg(rng, kinds[t % len(kinds)], tf=tf)
+            if t % 3 == 0:
+                cfg.ctype = "HA"        # a candlestick conversion on top (also of collapsed candles)
             sc = {"id": f"{pid}/{cfg.kind}/{t}", "obj": "ind", "inds": [cfg]}
+        if hexobj and t % 2 == 0:
+            sc["hex"] = {"ctype": "HA", "timeframe": pick_tf(rng) if t % 4 == 0 else None}
+            tf = sc["hex"]["timeframe"]
         regular = tf_regular(rng, tf) if tf else None
-        stw = make_stream(rng, n, style, tf=tf, regular=regular)
+        stw = make_stream(rng, n, style if not any(c.ctype for c in sc["inds"]) and not sc.get("hex", {}).get("ctype")
+                          else "walk", tf=tf, regular=regular)
         volkind = any(c.kind in ("VWMA", "VWAP", "OBV") for c in sc["inds"])
         if t % 5 == 2 or (volkind and rng.random() < 0.6):       # the appended candles trade no volume
             stw = stw[:hist - 3] + [x[:5] + (0,) for x in stw[hist - 3:]]
